@@ -33,6 +33,15 @@ CHECKS = {
             "before the corresponding change, and the same history without observers must end in the same text.",
             "Exhaustive only up to the stated depths/alphabet; editor-level part is sampled; a no-op edit may or may not log a "
             "step (both accepted).", "3/C04"),
+    "C10": ("exploration", "exhaustive small-scope enumeration + grammar-based property testing against a reference ERE matcher "
+                           "(set semantics and backtracking-priority semantics)",
+            "Every compilable token string of <=4/5 tokens over {a b . * | ( ) ^ $ [ab]} x every line of <=4 characters over {a,b}, and "
+            "Hypothesis-generated pattern sets printed from grammar ASTs x biased lines x flags, checked through rset_make/rset_find "
+            "(ASan probe): reported span is a real match (set semantics), no earlier start has one, span/index/groups equal the "
+            "leftmost greedy left-biased parse, no match is missed unless the depth-limit hook counter moved; a witness family keeps "
+            "the documented depth limit honest.",
+            "The reference matcher (models/rx.py) is trusted; priority and completeness clauses are skipped when the engine's "
+            "depth limit was hit (counted); sets are kept below 30 groups.", "3/C10"),
 }
 
 ALL = ["C%02d" % i for i in range(1, 21)]
